@@ -37,7 +37,7 @@ J gen(uint64_t seed, bool thorough) {
   ScenOpts o;
   o.T = thorough ? r.range(20, 160) : r.range(12, 60);
   o.max_biases = 2; o.max_cvs = 2;
-  o.p_extended = 0.25;
+  o.p_extended = 0.25; o.p_subtract = 0.4;
   o.restart_freq = 0;
   Scenario sc = gen_scenario(r, o);
   sc.ec.binary_state = r.chance(0.4);
